@@ -7,5 +7,5 @@ for c in "$@"; do
   rc=$?
   echo "$c exit=$rc $(grep -c '^VIOLATION' /tmp/seedrun_$(basename $D)_$c.log) violation line(s): $(grep -m1 'violated:' /tmp/seedrun_$(basename $D)_$c.log | cut -c1-220)"
 done
-git -C /repo checkout -- .
+git -C /repo checkout -- . && git -C /repo clean -fdq -- src test
 git -C /repo status --short | grep -v _build
